@@ -1058,10 +1058,16 @@ def run(ck):
     cases = gen_cases(ck)
     terms, metas = [], []
     for kind, inp, bucket, nontrivial in cases:
-        obs = impl(kind, inp)
         ck.note_case((kind, inp), nontrivial)
         ck.count(bucket)
         ck.count("codec:" + kind.split("_")[0])
+        try:
+            obs = impl(kind, inp)
+        except Exception as e:  # noqa -- an exception class none of the codecs may raise on these inputs
+            ck.report("crash:%s:%s" % (kind, type(e).__name__),
+                      "C15 fails on the implementation (%s): unexpected %s: %s" % (kind, type(e).__name__, e),
+                      {"kind": kind, "in": inp, "impl": "raised " + repr(e)})
+            continue
         why = oracle(kind, inp, obs)
         if why:
             ck.report("oracle:%s:%s" % (kind, why.split("(")[0].strip()[:48]), "C15 fails on the implementation (%s): %s" % (kind, why),
@@ -1095,9 +1101,13 @@ def run(ck):
 def replay(rep):
     c = rep["case"]
     kind, inp = c["kind"], c["in"]
-    obs = impl(kind, inp)
     print("kind:", kind)
     print("input:", inp)
+    try:
+        obs = impl(kind, inp)
+    except Exception as e:  # noqa
+        print("implementation raised unexpectedly:", repr(e))
+        return 1
     print("implementation:", obs)
     if "model" in c:
         print("model (at time of report):", c["model"])
